@@ -65,7 +65,7 @@ DIMS3 = (2, 3, 4)
 
 
 def _chains():
-    return [(), ("Relu",), ("Neg",), ("Add",), ("Mul",), ("Relu", "Add"), ("Add", "Relu"), ("Sub", "Abs"), ("Max",), ("Tanh", "Mul")]
+    return [(), ("Relu",), ("Neg",), ("Add",), ("Max",), ("Relu", "Add"), ("Min", "Relu"), ("Mul",), ("Add", "Relu"), ("Sub", "Abs"), ("Tanh", "Mul"), ("Cast16",)]
 
 
 def _apply_chain(g, cur, chain, cur_shape, side_kind, sides):
@@ -81,6 +81,8 @@ def _apply_chain(g, cur, chain, cur_shape, side_kind, sides):
             else:
                 s = sides["transposed"](cur_shape)
             cur = g.node(op, [cur, s])
+        elif op == "Cast16":
+            cur = g.node("Cast", [g.node("Cast", [cur], to=TP.FLOAT16)], to=TP.FLOAT)
         else:
             cur = g.node(op, [cur])
         mids.append(cur)
@@ -98,7 +100,7 @@ def gen_t_chain_t(tier):
         for second in ("inverse", "same"):
             p2 = inv_perm(p1) if second == "inverse" else list(p1)
             for chain in chains:
-                has_bin = any(c in ("Add", "Mul", "Sub", "Max") for c in chain)
+                has_bin = any(c in ("Add", "Mul", "Sub", "Max", "Min") for c in chain)
                 for sk in side_kinds if has_bin else ("scalar",):
                     for outs in ("final", "final+t1", "final+mid", "final+t1+mid"):
                         if "mid" in outs and not chain:
